@@ -919,6 +919,7 @@ func wfRangeReq(o *ObjectRangeRequest) bool {
 //@ props C09 C11 C05
 //@ requires           inv:    gInv(g) && w != nil && rqInv(r)
 //@ ensures [C05,C01]  asked:  imp(ret0 == nil, get_count == old(get_count) + 1 && get_bucket == bucket && get_key == object && get_ver == versionID)
+//@ ensures [C01]      length: imp(ret0 == nil, hdr_set(w.Header())["Content-Length"] && hdr_set(w.Header())["ETag"])
 //@ func (*GoFakeS3).getObject$1
 //@ props C09
 //@ requires           inv:    Contents != nil && g != nil && *g != nil && (*g).log != nil
@@ -926,11 +927,14 @@ func wfRangeReq(o *ObjectRangeRequest) bool {
 //@ func (*GoFakeS3).writeGetOrHeadObjectResponse
 //@ props C09 C01
 //@ requires           inv:    gInv(g) && w != nil && rqInv(r) && obj != nil
+//@ ensures [C01]      etag:   imp(ret0 == nil, hdr_set(w.Header())["ETag"] && hdr_val(w.Header())["ETag"] == "\"" + hex.EncodeToString(obj.Hash) + "\"")
+//@ ensures [C05,C01]  vid:    imp(ret0 == nil && obj.VersionID != "", hdr_set(w.Header())["x-amz-version-id"] && hdr_val(w.Header())["x-amz-version-id"] == string(obj.VersionID))
 //@ modifies nothing
 //@ func (*GoFakeS3).headObject
 //@ props C09 C05
 //@ requires           inv:    gInv(g) && w != nil && rqInv(r)
 //@ ensures [C05,C01]  asked:  imp(ret0 == nil, get_count == old(get_count) + 1 && get_bucket == bucket && get_key == object && get_ver == versionID)
+//@ ensures [C01]      length: imp(ret0 == nil, hdr_set(w.Header())["Content-Length"] && hdr_set(w.Header())["ETag"])
 //@ func (*GoFakeS3).createObjectBrowserUpload
 //@ props C09 C08
 //@ requires           inv:    gInv(g) && w != nil && rqInv(r)
@@ -943,6 +947,7 @@ func wfRangeReq(o *ObjectRangeRequest) bool {
 //@                               (typeis(dyn(put_input, *hashingReader).inner, *chunkedReader) && dyn(dyn(put_input, *hashingReader).inner, *chunkedReader) != nil &&
 //@                                dyn(dyn(put_input, *hashingReader).inner, *chunkedReader).inner == old(r.Body))))
 //@ ensures [C01]      once:   put_count <= old(put_count) + 1
+//@ ensures [C01]      etag:   imp(err == nil && put_count == old(put_count) + 1, hdr_set(w.Header())["ETag"])
 //@ ensures [C08]      reject: imp(err != nil && errcode(err) != "" && !g.autoBucket, store_gen == old(store_gen))
 //@ ensures [C08]      badlen: imp(err == nil && resp_status(w) == 400 && old(resp_status(w)) != 400 && !g.autoBucket, store_gen == old(store_gen))
 //@ func (*GoFakeS3).copyObject
@@ -1009,9 +1014,11 @@ func wfRangeReq(o *ObjectRangeRequest) bool {
 //@ modifies nothing
 
 //@ func (*ObjectRange).writeHeader
-//@ props C11 C09
+//@ props C11 C09 C01
 //@ requires           w:      w != nil
 //@ requires [C11]     inside: imp(o != nil, 0 <= o.Start && 1 <= o.Length && o.Start + o.Length <= sz)
+//@ ensures [C01,C11]  length: hdr_set(w.Header())["Content-Length"]
+//@ ensures [C11]      crange: imp(o != nil, hdr_set(w.Header())["Content-Range"] && resp_status(w) == 206)
 //@ modifies nothing
 
 //@ func (*hashingReader).Sum
